@@ -46,6 +46,12 @@ JudgeBitsS(e, i) ==
               /\ f.tb = (IF IsZero(v) THEN 0 ELSE TrailingZeros(Abs(v)))),
      nt |-> IsZero(v) \/ v = FromInt(-1) \/ v = MinOf(w, TRUE) \/ v = MaxOf(w, TRUE) \/ IsPow2(Abs(v)), cls |-> cls]
 
+\* used_digits / leading_bits of a CNL integer wrapper with D digits: used_digits is the bit length of the value bits
+\* (of v for v >= 0, of -v-1 for v < 0), leading_bits the rest of the digits
+JudgeBitsW(e, i) ==
+    LET D == i.lt.digits  v == J(e.x)  ud == UsedDigits(v)  cls == <<"BitsW", i.lt.k, IF v.n THEN "neg" ELSE "pos">> IN
+    [d |-> BitsDiag(e.out, e.f.ud = ud /\ e.f.lb = D - ud), nt |-> v.n \/ BitLen(v) > 64, cls |-> cls]
+
 \* rotations of an unsigned value by s in 0..2w
 JudgeRot(e, i) ==
     LET w == i.lt.w  x == J(e.x)  cls == <<"Rot", w>> IN
